@@ -11,7 +11,7 @@ RULE = (
     'G-params: 2-7 strictly increasing knots (spacing 1-1000 mm), conductivities over 11 decades (monotone, arbitrary, '
     'and narrow-spike sets: one knot 4-11 decades above its neighbours), T_min 1e-3..1e2, built by the real '
     'create_transmissivity_function; levels below / at the lowest knot, between knots, one ulp and 1e-9 beside knots, '
-    'at every knot including the highest; Python floats, numpy scalars, lists and arrays.  Oracle: closed form '
+    'at every knot including the highest; Python floats, numpy scalars, lists and arrays in sorted and in arbitrary order.  Oracle: closed form '
     'T_min + sum K_j expm1(s d)/s per log-linear segment (1e-9 relative); T = T_min at and below the lowest knot; '
     'non-decreasing over the sorted levels; continuity across knots; array == scalar results.  Non-trivial: level '
     'above >= 2 knots with a conductivity ratio >= 100 between neighbours; distinct by (parameter digest, level).'
@@ -26,6 +26,7 @@ REQUIRED = {
         'levels-beside-a-knot': 500,
         'monotonicity-pairs': 3000,
         'array-vs-scalar': 200,
+        'shuffled-array-vs-scalar': 200,
         'narrow-spike-sets': 40,
     }
     for tier in ('quick', 'thorough')
@@ -124,6 +125,17 @@ def check_set(ctx, rng, params, nlevels):
         if got.shape != (len(levels),) or not np.array_equal(got, np.array(values)):
             rec.violation('array-and-scalar-results-differ', {'levels': levels[:6], 'array': got.tolist()[:6], 'scalar': values[:6]}, case, 'spline_T')
             return
+    # arrays in arbitrary (non-monotone) order, as a water-level record would be
+    for _ in range(2):
+        perm = list(range(len(levels)))
+        rng.shuffle(perm)
+        shuffled = [levels[i] for i in perm]
+        got = np.asarray(T(np.array(shuffled) if rng.random() < 0.5 else shuffled), dtype=float)
+        exp = np.array([values[i] for i in perm])
+        if got.shape != exp.shape or not np.array_equal(got, exp):
+            rec.violation('array-and-scalar-results-differ', {'levels_in_call_order': shuffled[:8], 'array': got.tolist()[:8], 'scalar': exp.tolist()[:8]}, case, 'spline_T')
+            return
+        rec.hit('shuffled-array-vs-scalar')
     rec.hit('array-vs-scalar')
     if len(rec.samples) < 3:
         rec.sample({'knots_mm': knots, 'K_km_d': K, 'T_min': tmin, 'levels': levels[:5], 'T': values[:5]})
